@@ -118,6 +118,7 @@ type path struct {
 	ctxCancel                      func()
 	pendingRequests                atomic.Int64
 	confMutex                      sync.RWMutex
+	confToLoad                     atomic.Pointer[conf.Path]
 	source                         defs.Source
 	stream                         *stream.Stream
 	recorder                       *recorder.Recorder
@@ -138,7 +139,7 @@ type path struct {
 	onDemandPublisherCloseTimer    *time.Timer
 
 	// in
-	chReloadConf              chan *conf.Path
+	chReloadConf              chan struct{}
 	chStaticSourceSetReady    chan defs.PathSourceStaticSetReadyReq
 	chStaticSourceSetNotReady chan defs.PathSourceStaticSetNotReadyReq
 	chDescribe                chan defs.PathDescribeReq
@@ -163,7 +164,7 @@ func (pa *path) initialize() {
 	pa.onDemandStaticSourceCloseTimer = emptyTimer()
 	pa.onDemandPublisherReadyTimer = emptyTimer()
 	pa.onDemandPublisherCloseTimer = emptyTimer()
-	pa.chReloadConf = make(chan *conf.Path)
+	pa.chReloadConf = make(chan struct{})
 	pa.chStaticSourceSetReady = make(chan defs.PathSourceStaticSetReadyReq)
 	pa.chStaticSourceSetNotReady = make(chan defs.PathSourceStaticSetNotReadyReq)
 	pa.chDescribe = make(chan defs.PathDescribeReq)
@@ -328,8 +329,8 @@ func (pa *path) runInner() error {
 		case <-pa.onDemandPublisherCloseTimer.C:
 			pa.doOnDemandPublisherCloseTimer()
 
-		case newConf := <-pa.chReloadConf:
-			pa.doReloadConf(newConf)
+		case <-pa.chReloadConf:
+			pa.doReloadConf(pa.confToLoad.Load())
 
 		case req := <-pa.chStaticSourceSetReady:
 			pa.doSourceStaticSetReady(req)
@@ -1091,12 +1092,18 @@ func (pa *path) addReaderPost(req defs.PathAddReaderReq) {
 
 // reloadConf is called by pathManager.
 func (pa *path) reloadConf(newConf *conf.Path) {
-	verifhook.Point("path.reloadConf.enter")
+	// store the configuration synchronously in order to preserve the order of reloads,
+	// then notify the path asynchronously in order not to block the path manager.
+	pa.confToLoad.Store(newConf)
 
-	select {
-	case pa.chReloadConf <- newConf:
-	case <-pa.ctx.Done():
-	}
+	go func() {
+		verifhook.Point("path.reloadConf.enter")
+
+		select {
+		case pa.chReloadConf <- struct{}{}:
+		case <-pa.ctx.Done():
+		}
+	}()
 }
 
 // StaticSourceHandlerSetReady is called by staticsources.Handler.
